@@ -30,6 +30,9 @@ def main():
     ap.add_argument("--remove-tagger", action="append", default=[])
     ap.add_argument("--label", default="")
     ap.add_argument("--add-dumping", default=None, help="dumping interval: add a dumping tagger to the configuration")
+    ap.add_argument("--streams", type=int, default=None, help="seed: give every event handler its own random stream")
+    ap.add_argument("--multi", type=int, default=None, help="number of cores: run under the multi-process mediator")
+    ap.add_argument("--schedule", default=None, help="JSON: {policy, seed, delays: {hid: [t, o]}} for the multi-process run")
     a = ap.parse_args()
     os.makedirs(a.workdir, exist_ok=True)
     os.chdir(a.workdir)
@@ -39,6 +42,10 @@ def main():
     recorder.install(rec)
     random.seed(a.seed)
     status = dict(ok=True)
+    if a.streams is not None:
+        rec.streams = {}
+        rec.stream_seed = a.streams
+    sched = json.loads(a.schedule) if a.schedule else None
     try:
         with open(os.devnull, "w") as devnull, contextlib.redirect_stdout(devnull):
             if a.resume:
@@ -83,6 +90,8 @@ def main():
                     cfg.set(sec, opt, val)
                 if a.add_dumping:
                     add_dumping(cfg, a.add_dumping)
+                if a.multi:
+                    use_multi_process(cfg, a.multi, rec, sched)
                 for tag in a.remove_tagger:
                     remove_tagger(cfg, tag)
                 for sec in cfg.sections():
@@ -108,6 +117,47 @@ def live_children():
         return len(multiprocessing.active_children())
     except Exception:
         return -1
+
+
+def use_multi_process(cfg, cores, rec, sched):
+    """Switch the configuration to the multi-process mediator and install the schedule shim for connection.wait."""
+    old = "SingleProcessMediator"
+    cfg.set("Run", "mediator", "multi_process_mediator")
+    cfg.add_section("MultiProcessMediator")
+    for opt, val in cfg.items(old):
+        cfg.set("MultiProcessMediator", opt, val)
+    cfg.set("MultiProcessMediator", "number_cores", str(cores))
+    cfg.remove_section(old)
+    import random as _random
+    import jellyfysh.mediator.multi_process_mediator.multi_process_mediator as mpm
+    real_connection = mpm.connection
+    policy = (sched or {}).get("policy", "native")
+    rnd = _random.Random((sched or {}).get("seed", 0))
+    rec.delays = {int(k): tuple(v) for k, v in (sched or {}).get("delays", {}).items()}
+
+    class Shim:
+        """connection.wait that reports a harness-chosen subset / order of the really ready pipes (a legal result)."""
+        def __getattr__(self, name):
+            return getattr(real_connection, name)
+
+        @staticmethod
+        def wait(pipes, timeout=None):
+            ready = real_connection.wait(pipes, timeout)
+            if policy == "native" or not ready:
+                return ready
+            if policy == "linger":
+                # give the other workers a moment, so that several pipes are ready and the order below matters
+                import time
+                time.sleep(0.002)
+                ready = real_connection.wait(pipes, 0) or ready
+            ready = list(ready)
+            if policy in ("one", "linger"):
+                return [rnd.choice(ready)]
+            if policy == "reverse":
+                return ready[::-1]
+            rnd.shuffle(ready)
+            return ready
+    mpm.connection = Shim()
 
 
 def add_dumping(cfg, interval):
